@@ -100,6 +100,7 @@ def format_rules(an: Analysis, rep):
     rep.run(r102_order, an, rep, expand)
     rep.run(r105, an, rep)
     rep.run(r106, an, rep)
+    rep.run(r107, an, rep)
 
 
 def _merge_predicates(collapse: FunctionInfo):
@@ -574,3 +575,80 @@ def r106(an, rep):
                 f"`{norm_src(lp.test)}` keeps the walk going while `{sorted(cursors)[0]} < len({items})`: on exit every entry has been consumed" if ok else
                 f"the walk ends when `{norm_src(lp.test)}` is false, whether or not entries remain: entries at or beyond the end of the code (left by the peephole pass for removed "
                 f"statements, e.g. `def f(): return 1; x = 2`) never reach the mapping and are missing from the re-encoded table")
+
+
+def r107(an, rep):
+    """Encoder mirror of R10.5: a section's line delta is taken against the last section that HAD a line - a run without a line neither
+    moves nor resets the reference (CPython's assembler keeps `lineno` across -128 entries)."""
+    from .encode_model import guards_of
+    rep.rule("R10.7", "the table builder computes line deltas against the last real line (no-line runs do not reset it)", 1)
+    st = find_stages(an)
+    f = st["from_map"]
+    # line variables: loop targets over <mapping>.<dict field>.items()
+    linevars = set()
+    for lp in ast.walk(f.node):
+        if isinstance(lp, ast.For) and isinstance(lp.iter, ast.Call) and isinstance(lp.iter.func, ast.Attribute) and lp.iter.func.attr == "items" \
+                and isinstance(lp.target, ast.Tuple) and len(lp.target.elts) == 2 and isinstance(lp.target.elts[1], ast.Name):
+            linevars.add(lp.target.elts[1].id)
+    subs = [n for n in ast.walk(f.node) if isinstance(n, ast.BinOp) and isinstance(n.op, ast.Sub) and isinstance(n.left, ast.Name) and n.left.id in linevars]
+    # only the arm where the line can be None matters: the one whose delta expression sits under / next to an `is None` test of the line variable
+    subs = [n for n in subs if any(isinstance(c, ast.Compare) and isinstance(c.ops[0], (ast.Is, ast.IsNot)) and isinstance(c.left, ast.Name) and c.left.id == n.left.id
+                                   for g, _ in guards_of(f.module, f, _stmt(f, n)) for c in ast.walk(g)) or _in_none_ifexp(f, n)]
+    if not subs:
+        raise AnalysisError(f"{f.qual}: no `line - reference` delta under a None test of the line found (linetable arm)")
+    for n in subs:
+        ref = n.right
+        lv = n.left.id
+        if not isinstance(ref, ast.Name):
+            rep.add("R10.7", f"{f.qual}::delta reference `{norm_src(ref)}`", False, loc(f.module, n),
+                    f"the delta is `{norm_src(n)}`: the reference `{norm_src(ref)}` falls back to a constant when the previous section had no line, so the lines after a no-line run "
+                    f"restart from the first line instead of continuing from the last real line")
+            continue
+        bad = []
+        for s_ in ast.walk(f.node):
+            if isinstance(s_, ast.Assign) and any(isinstance(t, ast.Name) and t.id == ref.id for t in s_.targets):
+                v = s_.value
+                if isinstance(v, ast.Constant):
+                    if _loop_depth(f, s_) > 0:
+                        bad.append((s_, "reset to a constant inside the loop"))
+                    continue
+                if isinstance(v, ast.Name) and v.id in linevars:
+                    gs = guards_of(f.module, f, s_)
+                    guarded = any(isinstance(c, ast.Compare) and isinstance(c.ops[0], ast.IsNot) and isinstance(c.left, ast.Name) and c.left.id == v.id
+                                  and isinstance(c.comparators[0], ast.Constant) and c.comparators[0].value is None for g, pos in gs if pos for c in ast.walk(g))
+                    if not guarded:
+                        bad.append((s_, f"takes `{v.id}` also when it is None"))
+                    continue
+                bad.append((s_, f"set to `{norm_src(v)[:40]}`"))
+        rep.add("R10.7", f"{f.qual}::reference `{ref.id}` is the last real line", not bad, loc(f.module, bad[0][0] if bad else n),
+                f"`{ref.id}` only ever takes a line that is not None" if not bad else
+                f"`{norm_src(bad[0][0])[:60]}`: the reference {bad[0][1]}; after a run without a line the next delta is no longer taken against the last real line")
+
+
+def _stmt(f, node):
+    pm = parent_map(f.module)
+    cur = node
+    while id(cur) in pm and not isinstance(cur, ast.stmt):
+        cur = pm[id(cur)]
+    return cur
+
+
+def _in_none_ifexp(f, node):
+    pm = parent_map(f.module)
+    cur = node
+    while id(cur) in pm and not isinstance(cur, ast.stmt):
+        cur = pm[id(cur)]
+        if isinstance(cur, ast.IfExp) and any(isinstance(c, ast.Compare) and isinstance(c.ops[0], (ast.Is, ast.IsNot)) and isinstance(c.comparators[0], ast.Constant)
+                                              and c.comparators[0].value is None for c in ast.walk(cur.test)):
+            return True
+    return False
+
+
+def _loop_depth(f, node):
+    pm = parent_map(f.module)
+    cur, d = node, 0
+    while id(cur) in pm and pm[id(cur)] is not f.node:
+        cur = pm[id(cur)]
+        if isinstance(cur, (ast.For, ast.While)):
+            d += 1
+    return d
